@@ -7,6 +7,8 @@ LEVEL = "proof"
 KEYWORDS = ["if", "else", "in", "int", "while", "for", "==", "=", "<", "<=", "+", "++", "a", "ab", "x1", "\\\"", "a\\\\b", "\\+", "(", "0", "\\\\/", "\\\\n", "\\\\\\\\", "\\\\", "\\a\\b", "x\\\\"]
 PATTERNS = ["[a-z]+", "[a-z][a-z0-9_]*", "[0-9]+", "[0-9]+(\\.[0-9]+)?", "[a-c]+", "(a|b)+", "[ab]+", "if|in", "i[a-z]*", "\\d+", "\\s+", "[A-Z][a-z]*",
             "x*y", "a?b", "=+", "<=?", "\\+\\+?", "[a-z]{2,3}", "(ab)*a?", "[0-9a-f]+", "0x[0-9a-f]+", "\\w+", "[ \\t]+", "a{2}", "while|w", "\"[a-z]*\"",
+            # patterns without a single operator character: still patterns (no priority over other patterns)
+            "if", "in", "ab", "==", "a", "int", "x1", "while", "<", "0",
             ".", ".+", "[^a]", "[^ab]+x", "\\D", "i.", "#.*", "[:alpha:]+", "[[:alpha:]_][[:alnum:]_]*", "\\p{Lu}\\p{Ll}*", "\\x41+", "\\x0041", "-?[0-9]+"]
 TOKNAMES = ["ID", "NUM", "KW", "OP", "WS", "T_1", "AB", "STR", "HEX", "XY"]
 
@@ -39,6 +41,14 @@ def unescape(lit):
             i += 1
         out.append(lit[i]); i += 1
     return "".join(out)
+
+
+def expected_kinds(text):
+    """terminal -> is it defined by a pattern (/…/) in the specification text? (a pattern never gets a literal's priority)"""
+    kinds = {}
+    for m in re.finditer(r'^([A-Z][A-Z0-9_]*) = (/|")', text, re.M):
+        kinds[m.group(1)] = (m.group(2) == "/")
+    return kinds
 
 
 def expected_values(text):
@@ -211,6 +221,11 @@ def run(ctx):
         defs = p["defs"]
         # a string literal denotes its own characters, with backslash escapes resolved
         exp = expected_values(t)
+        kinds = expected_kinds(t)
+        for (term, value, isre) in defs:
+            if term in kinds and bool(isre) != kinds[term]:
+                ctx.add_violation("a definition written as a %s is treated as a %s when the winner of a state is chosen" % (("pattern", "string literal") if kinds[term] else ("string literal", "pattern")),
+                                  {"input": t, "input_hex": hx(t.encode()), "terminal": term, "value": value})
         for (term, value, isre) in defs:
             if not isre and term in exp and value != exp[term]:
                 ctx.add_violation("a string literal does not denote its own characters: terminal %r has the value %r, the literal written denotes %r" % (term, value, exp[term]),
